@@ -209,7 +209,10 @@ def h_splitter(cfg):
     recs = [Rec(env, 'o%d' % i) for i in range(N)]
     if cfg['kind'] == 'two':
         sp = Splitter()
-        sp.out1, sp.out2 = recs[0], recs[1]
+        if 0 not in cfg.get('unset', []):
+            sp.out1 = recs[0]
+        if 1 not in cfg.get('unset', []):
+            sp.out2 = recs[1]
     else:
         sp = NSplitter(N)
         for i in range(N):
@@ -244,6 +247,8 @@ def h_splitter(cfg):
     copies = [r.log[0][0] for i, r in enumerate(recs) if i > 0 and i not in unset]
     objs = ([pkt] if 0 not in unset else []) + copies
     check('c18.splitter-distinct-objects', len({id(o) for o in objs}) == len(objs))
+    # every output but the first gets a copy - also when the first output is not plugged in
+    check('c18.splitter-distinct-objects', all(c is not pkt for c in copies), 'an output other than the first received the original')
     for c in copies:
         check_unchanged('c18.splitter-copy', c, snap)
         check('c18.splitter-copy-complete', set(vars(c)) == set(full), sorted(set(full) ^ set(vars(c))))
@@ -464,6 +469,8 @@ def jobs(tier, seed):
         for mode in ('none', 'ctor-empty', 'all', 'mixed', 'add'):
             js.append({'harness': 'hub', 'cfg': {'nend': m, 'ports': mode}})
     js.append({'harness': 'splitter', 'cfg': {'kind': 'two', 'N': 2}})
+    js.append({'harness': 'splitter', 'cfg': {'kind': 'two', 'N': 2, 'unset': [0]}})
+    js.append({'harness': 'splitter', 'cfg': {'kind': 'two', 'N': 2, 'unset': [1]}})
     for N in (2, 3, 4):
         js.append({'harness': 'splitter', 'cfg': {'kind': 'n', 'N': N}})
     js.append({'harness': 'splitter', 'cfg': {'kind': 'n', 'N': 3, 'unset': [1]}})
